@@ -20,6 +20,7 @@ NEED_ACTIONS = ["DoPStart", "DoPStartNode", "DoPBump", "DoPComplete", "DoPFinish
                 "DoStartNode", "DoToken", "DoFinishNode", "DoHole", "DoSinkEnd", "DoInsertTrivia"]
 CHUNKS = 8
 ROUND_RANDOM = 16000        # seeded random scripts per round
+QUICK_RANDOM = 24000        # ... in the single round of the quick tier
 ROUND_TLC = 30000           # TLC-exported scripts per round
 
 
@@ -146,6 +147,8 @@ def one_round(rep, work, sp, tot, name, single=False):
                 evs = [json.loads(x) for x in lines[starts[b["run"] - 1] - 1: b["line"]]]
                 ev = evs[-1]
                 why = sorted(b["why"])
+                if any(w.startswith("trace:") for w in why):
+                    raise ToolError(f"recorded trace does not follow the run grammar at line {b['line']} of {c['path']}: {why}")
                 key = "+".join(why)
                 if ev["a"] == "Panic":
                     key += "@" + os.path.basename(ev.get("loc", "").split(":")[0])
@@ -194,13 +197,13 @@ def run(prop, tier, replay):
             exported, simulated = tlc_scripts(tier)
             n_exported, n_simulated = len(exported), len(simulated)
             abstract = exported + simulated
-            n_random = ROUND_RANDOM if tier == "quick" else 12 * ROUND_RANDOM
+            n_random = QUICK_RANDOM if tier == "quick" else 40 * ROUND_RANDOM
             rnd = 0
             while abstract or n_random > 0:
                 rnd += 1
                 part, abstract = abstract[:ROUND_TLC], abstract[ROUND_TLC:]
                 # TLC's scripts first; random scripts join a round as long as it has room
-                take = 0 if len(part) > ROUND_TLC // 2 else min(n_random, ROUND_RANDOM)
+                take = 0 if len(part) > ROUND_TLC // 2 else min(n_random, QUICK_RANDOM if tier == "quick" else ROUND_RANDOM)
                 n_random -= take
                 tl = work / "tlc_scripts.ndjson"
                 with open(tl, "w") as f:
@@ -235,6 +238,7 @@ def run(prop, tier, replay):
         "texts_parsed": counts.get("parse", 0),
         "tokens_checked": counts.get("tokens", 0),
         "purity_reparses": counts.get("reparse", 0),
+        "purity_same_text_in_later_run": counts.get("again", 0),
         "trivia_insertions": counts.get("insert", 0),
         "trivia_shapes_compared": counts.get("shapes", 0),
         "trivia_insertions_inconclusive": counts.get("inconclusive", 0),
